@@ -138,9 +138,13 @@ def _zygote_main(conn: Connection, module: str, timeout: float):
         # Rehearse the warm-up in a throw-away child first: if the tree under test crashes or hangs already there, every
         # job of this zygote is answered with that abnormal end (a violation for the engine to classify), instead of the
         # zygote dying and the harness looking broken.
-        probe = run_in_child(lambda job, io: (io.progress({'site': 'warmup'}), mod.warmup(), {'violations': [], 'digest': 'warmup'})[2],
-                             {'warmup': True}, max(timeout, 120))
-        if probe.get('abnormal') or probe.get('harness_error'):
+        def rehearse(job, io):
+            io.progress({'site': 'warmup'})
+            found = mod.warmup()  # an engine may return violations its warm-up histories ran into
+            return {'violations': list(found or []), 'digest': 'warmup', 'steps': 0, 'keys': []}
+
+        probe = run_in_child(rehearse, {'warmup': True}, max(timeout, 120))
+        if probe.get('abnormal') or probe.get('harness_error') or (probe.get('result') or {}).get('violations'):
             broken = probe
         else:
             mod.warmup()
